@@ -265,6 +265,9 @@ LIFO_STATIC_INLINE void parsec_lifo_push( parsec_lifo_t* lifo,
 
         item->list_next = lifo->lifo_head.data.item;
 
+#if defined(PARSEC_VERIF)
+        PARSEC_VERIF_YIELD(PARSEC_VERIF_SITE_LIFO);
+#endif
         if (parsec_update_counted_pointer(&lifo->lifo_head, old_head,
                                           (parsec_list_item_t *)item)) {
             parsec_atomic_wmb ();
@@ -277,6 +280,9 @@ LIFO_STATIC_INLINE void parsec_lifo_push( parsec_lifo_t* lifo,
         parsec_atomic_wmb ();
 
         /* to protect against ABA issues it is sufficient to only update the counter in pop */
+#if defined(PARSEC_VERIF)
+        PARSEC_VERIF_YIELD(PARSEC_VERIF_SITE_LIFO);
+#endif
         if (parsec_atomic_cas_ptr(&lifo->lifo_head.data.item, next, item)) {
             return;
         }
@@ -301,6 +307,9 @@ LIFO_STATIC_INLINE void parsec_lifo_chain( parsec_lifo_t* lifo,
         parsec_atomic_wmb ();
 
         /* to protect against ABA issues it is sufficient to only update the counter in pop */
+#if defined(PARSEC_VERIF)
+        PARSEC_VERIF_YIELD(PARSEC_VERIF_SITE_LIFO);
+#endif
         if (parsec_atomic_cas_ptr(&lifo->lifo_head.data.item, next, ring)) {
             return;
         }
@@ -323,6 +332,9 @@ LIFO_STATIC_INLINE parsec_list_item_t* parsec_lifo_pop( parsec_lifo_t* lifo )
             return NULL;
         }
 
+#if defined(PARSEC_VERIF)
+        PARSEC_VERIF_YIELD(PARSEC_VERIF_SITE_LIFO);
+#endif
         if (parsec_update_counted_pointer(&lifo->lifo_head, old_head,
                                           (parsec_list_item_t *)item->list_next)) {
             parsec_atomic_wmb ();
@@ -346,6 +358,9 @@ LIFO_STATIC_INLINE parsec_list_item_t* parsec_lifo_try_pop( parsec_lifo_t* lifo 
         return NULL;
     }
 
+#if defined(PARSEC_VERIF)
+    PARSEC_VERIF_YIELD(PARSEC_VERIF_SITE_LIFO);
+#endif
     if (parsec_update_counted_pointer (&lifo->lifo_head, old_head,
                                      (parsec_list_item_t *) item->list_next)) {
         parsec_atomic_wmb();
